@@ -255,6 +255,116 @@ func c06Lns(f []string) string {
 	return strings.Join(parts, " | ")
 }
 
+// IPv6CP inside a real LNS session (startNCP opens it with the default identifier of NewIPv6CP)
+func c06Lns6(f []string) string {
+	var sent []c06Pkt
+	c := New(logger.NewTest())
+	c.SetSendControlFn(func(localIP, peerIP net.IP, localPort, peerPort uint16, header l2tppkt.Header, body []byte) error {
+		if len(body) < 6 || uint16(body[0])<<8|uint16(body[1]) != ppp.ProtoIPv6CP {
+			return nil
+		}
+		l := int(body[4])<<8 | int(body[5])
+		if l < 4 || 2+l > len(body) {
+			sent = append(sent, c06Pkt{code: 255})
+			return nil
+		}
+		sent = append(sent, c06Pkt{code: body[2], id: body[3], data: append([]byte(nil), body[6:2+l]...)})
+		return nil
+	})
+	s := &Session{
+		SessionID:  "s1",
+		Tunnel:     &Tunnel{LocalIP: net.IPv4(192, 0, 2, 1), PeerIP: net.IPv4(192, 0, 2, 2), LocalID: 1, PeerID: 2, LocalPort: 1701, PeerPort: 1701},
+		LocalID:    3,
+		PeerID:     4,
+		Attributes: map[string]string{aaa.AttrIPv4Address: "10.0.0.5"},
+	}
+	c.initSessionPPP(s)
+	defer func() {
+		s.IPCP.FSM().Kill()
+		s.IPv6CP.FSM().Kill()
+		s.LCP.FSM().Kill()
+	}()
+	c.extractIPFromAttributes(s)
+	s.Phase = ppp.PhaseAuthenticate
+	c.startNCP(s)
+	var lastReq *c06Pkt
+	show := func() string {
+		local := s.IPv6CP.LocalConfig().InterfaceID
+		var acts []string
+		for i := range sent {
+			p := sent[i]
+			switch p.code {
+			case ppp.ConfReq:
+				lastReq = &sent[i]
+				acts = append(acts, "scr:"+c06ShowWire(p.data))
+			case ppp.ConfAck:
+				acts = append(acts, fmt.Sprintf("sca:%d:%s", p.id, c06ShowWire(p.data)))
+			case ppp.ConfNak:
+				d := p.data
+				if len(d)%10 == 0 && len(d) > 0 {
+					var parts []string
+					ok := true
+					for j := 0; j < len(d); j += 10 {
+						id := d[j+2 : j+10]
+						if d[j] != 1 || d[j+1] != 10 || string(id) == string(local[:]) || string(id) == string(make([]byte, 8)) {
+							ok = false
+						}
+						parts = append(parts, "1.S")
+					}
+					if ok {
+						acts = append(acts, fmt.Sprintf("scn:%d:%s", p.id, strings.Join(parts, ",")))
+						continue
+					}
+				}
+				acts = append(acts, fmt.Sprintf("scn:%d:%s", p.id, c06ShowWire(p.data)))
+			case ppp.ConfRej:
+				acts = append(acts, fmt.Sprintf("scj:%d:%s", p.id, c06ShowWire(p.data)))
+			case ppp.TermAck:
+				acts = append(acts, fmt.Sprintf("sta:%d", p.id))
+			default:
+				acts = append(acts, fmt.Sprintf("x%d", p.code))
+			}
+		}
+		sent = nil
+		a := "-"
+		if len(acts) > 0 {
+			a = strings.Join(acts, " ")
+		}
+		up := 0
+		if s.ipv6cpOpen {
+			up = 1
+		}
+		return fmt.Sprintf("%s up=%d lid=%s", a, up, c06Hex(local[:]))
+	}
+	parts := []string{show()}
+	for _, ev := range f[1:] {
+		var rid uint8
+		var rdata []byte
+		if lastReq != nil {
+			rid, rdata = lastReq.id, lastReq.data
+		}
+		switch ev[0] {
+		case 'q':
+			i := strings.IndexByte(ev, '.')
+			id, _ := strconv.Atoi(ev[1:i])
+			s.IPv6CP.FSM().Input(ppp.ConfReq, uint8(id), c06Bytes(ev[i+1:]))
+		case 'e':
+			id, _ := strconv.Atoi(ev[1:])
+			s.IPv6CP.FSM().Input(ppp.ConfReq, uint8(id), rdata)
+		case 'k':
+			s.IPv6CP.FSM().Input(ppp.ConfAck, rid, rdata)
+		case 'n':
+			s.IPv6CP.FSM().Input(ppp.ConfNak, rid, c06Bytes(ev[1:]))
+		case 'j':
+			s.IPv6CP.FSM().Input(ppp.ConfRej, rid, c06Bytes(ev[1:]))
+		default:
+			return "badevent"
+		}
+		parts = append(parts, show())
+	}
+	return strings.Join(parts, " | ")
+}
+
 func c06Case(line string) (out string) {
 	defer func() {
 		if r := recover(); r != nil {
@@ -266,6 +376,9 @@ func c06Case(line string) (out string) {
 		}
 	}()
 	f := strings.Fields(line)
+	if len(f) >= 2 && f[0] == "l6" {
+		return c06Lns6(f[1:])
+	}
 	if len(f) < 2 || f[0] != "lns" {
 		return "badline"
 	}
